@@ -379,6 +379,9 @@ func derivesFrom(v ssa.Value, src func(ssa.Value) bool, followCalls bool) bool {
 		if src(v) {
 			return true
 		}
+		if o := origin(v); o != v {
+			return rec(o, depth+1)
+		}
 		switch x := v.(type) {
 		case *ssa.ChangeType:
 			return rec(x.X, depth+1)
